@@ -68,7 +68,10 @@ ErrorsOnly(e, other) == HasCtor(e.ast) /\ e.out.o = "err" /\ Has(e, other) /\ "o
 \* the Eval action that the step violates (nothing but the outcome may change: C05, C07; the
 \* outcome is JSON and EvalBytes agrees: C10)
 LineVerdict(e) ==
-    IF e.ev = "Compile" THEN
+    \* a literal whose pattern is empty or that the engine rejects is a compile error (C17), flags or no flags
+    IF Has(e, "rx_invalid") /\ e.rx_invalid THEN
+        (IF e.ev = "Compile" /\ e.out.o = "err" /\ e.out.k = "Parse" THEN "ok" ELSE "no;invalid-pattern-accepted")
+    ELSE IF e.ev = "Compile" THEN
         (IF e.out.o = "err" /\ e.out.k = "Parse" THEN "skip:compile-error" ELSE "no")
     ELSE
     LET eng == IF Has(e, "eng") THEN e.eng ELSE <<>>
